@@ -582,8 +582,8 @@ func relayLine(c Case) string {
 }
 
 func init() {
-	register(engine{name: "relay-up", share: 60, gen: genRelay(true), fixed: relayFixed(true), impl: relayUp, line: relayLine})
-	register(engine{name: "relay-down", share: 60, gen: genRelay(false), fixed: relayFixed(false), impl: relayDown, line: relayLine})
+	register(engine{name: "relay-up", bubble: true, share: 60, gen: genRelay(true), fixed: relayFixed(true), impl: relayUp, line: relayLine})
+	register(engine{name: "relay-down", bubble: true, share: 60, gen: genRelay(false), fixed: relayFixed(false), impl: relayDown, line: relayLine})
 	register(engine{name: "relay-tcp-dial", share: 15,
 		gen: func(r *common.Rng, i int) Case {
 			rc := &RelayCase{Addr: common.Pick(r, relayAddrs)}
